@@ -612,7 +612,15 @@ fn load_sparse(rng: &mut Rng, specs: Specs, regime: WeightRegime, variant: u8) -
         tok += 1;
         E { u: names[u].clone(), v: names[v].clone(), w: wbits(regime.draw(rng)), attr: if tok % 5 == 0 { None } else { Some(tok) } }
     };
-    let first: Vec<E> = pairs.iter().map(|&(u, v)| mk(rng, u, v, &names)).collect();
+    let mut first: Vec<E> = pairs.iter().map(|&(u, v)| mk(rng, u, v, &names)).collect();
+    if specs.multi && !first.is_empty() {
+        // the very same edge value again (a caller re-submitting part of a batch passes the same Arcs)
+        for _ in 0..rng.range(1, first.len() / 100 + 2) {
+            let e = first[rng.below(first.len())].clone();
+            let at = rng.below(first.len() + 1);
+            first.insert(at, e);
+        }
+    }
     ops.push(Op::AddEdges(first));
     let distinct_only = !specs.multi && specs.dedupe == Dedupe::Error;
     if !distinct_only && !pairs.is_empty() {
@@ -712,7 +720,7 @@ pub fn gen_huge_history_v(rng: &mut Rng, specs: Specs, regime: WeightRegime, der
     }
     let mut g = HistGen { rng, names: names.clone(), regime, token: tok, model, dup_bias: 40 };
     for _ in 0..g.rng.range(1, 4) {
-        let op = match g.rng.below(if derived { 9 } else { 4 }) {
+        let op = match g.rng.below(if derived { 10 } else { 4 }) {
             0 => Op::AddNode(g.node()),
             1 => Op::AddEdges(g.batch()),
             2 | 3 => Op::AddEdge(g.edge()),
@@ -721,13 +729,22 @@ pub fn gen_huge_history_v(rng: &mut Rng, specs: Specs, regime: WeightRegime, der
             7 => Op::SetWeights(wbits(*g.rng.pick(&[1.0, 0.5, f64::NAN]))),
             _ => {
                 // most of the graph, or a small part of it
-                let keep = if g.rng.chance(2, 3) { 9 } else { 1 };
+                let keep = if g.rng.chance(1, 2) { 9 } else { 1 };
                 let mut s: Vec<String> = names.iter().filter(|_| g.rng.chance(keep, 10)).cloned().collect();
                 if keep == 1 {
-                    // a small selection around a few stored edges
+                    // a small selection around a few stored edges, pairs that hold parallel edges first
                     s.truncate(g.rng.range(0, 6));
+                    let mut count: std::collections::BTreeMap<(&str, &str), usize> = std::collections::BTreeMap::new();
+                    for e in &g.model.edges {
+                        *count.entry((e.u.as_str(), e.v.as_str())).or_default() += 1;
+                    }
+                    let parallel: Vec<(String, String)> = count.iter().filter(|(_, c)| **c >= 2).map(|(k, _)| (k.0.to_string(), k.1.to_string())).collect();
                     for _ in 0..g.rng.range(1, 4) {
-                        if !g.model.edges.is_empty() {
+                        if !parallel.is_empty() && g.rng.chance(2, 3) {
+                            let (a, b) = g.rng.pick(&parallel).clone();
+                            s.push(a);
+                            s.push(b);
+                        } else if !g.model.edges.is_empty() {
                             let i = g.rng.below(g.model.edges.len());
                             let (a, b) = (g.model.edges[i].u.clone(), g.model.edges[i].v.clone());
                             s.push(a);
